@@ -1,6 +1,7 @@
 package chk
 
 import (
+	"go/constant"
 	"go/token"
 	"go/types"
 	"strings"
@@ -40,6 +41,10 @@ func (a *NilAnalysis) nonNil(fn *ssa.Function, v ssa.Value, f nilFacts) bool {
 			if lk, ok := ex.Tuple.(*ssa.Lookup); ok && lk.CommaOk && a.literalFieldNonNil(x.X.Type(), x.Field) {
 				return true
 			}
+		}
+		// field of a value of a private struct type that only ever exists as a literal (or a copy of one)
+		if a.literalOnlyType(x.X.Type()) && a.literalFieldNonNil(x.X.Type(), x.Field) {
+			return true
 		}
 	case *ssa.FreeVar:
 		return true // address of the captured variable
@@ -82,6 +87,33 @@ func (a *NilAnalysis) nonNil(fn *ssa.Function, v ssa.Value, f nilFacts) bool {
 							return true
 						}
 					}
+				}
+			}
+			if al, ok := ad.X.(*ssa.Alloc); ok && a.literalOnlyType(al.Type().(*types.Pointer).Elem()) && a.literalFieldNonNil(al.Type().(*types.Pointer).Elem(), ad.Field) {
+				// a copy of a value of a literal-only private struct type whose fields are not reassigned
+				whole, n := 0, 0
+				for _, ref := range *al.Referrers() {
+					switch r := ref.(type) {
+					case *ssa.Store:
+						n++
+						if r.Addr == ssa.Value(al) {
+							whole++
+						}
+					case *ssa.FieldAddr:
+						for _, r2 := range *r.Referrers() {
+							switch r2.(type) {
+							case *ssa.UnOp, *ssa.DebugRef:
+							default:
+								n += 2
+							}
+						}
+					case *ssa.UnOp, *ssa.DebugRef:
+					default:
+						n += 2
+					}
+				}
+				if whole == n && n >= 1 {
+					return true
 				}
 			}
 			st := ad.X.Type().Underlying().(*types.Pointer).Elem()
@@ -248,9 +280,60 @@ func (a *NilAnalysis) condFacts(fn *ssa.Function, cond ssa.Value, taken bool, f 
 		if c.Op == token.NOT {
 			a.condFacts(fn, c.X, !taken, f)
 		}
+	case *ssa.Phi:
+		// a && b (taken) or a || b (not taken) in value position: the phi merges the constant that short-circuits
+		// with the right operand; on this edge the value came from the right operand's block with that operand
+		// deciding, and everything known at the end of that block still holds (nothing but the phi and the test
+		// stand between)
+		var rhs ssa.Value
+		var from *ssa.BasicBlock
+		n := 0
+		for k, e := range c.Edges {
+			if kc, ok := e.(*ssa.Const); ok && kc.Value != nil && kc.Value.Kind() == constant.Bool {
+				if constant.BoolVal(kc.Value) == taken {
+					return // the short-circuit constant itself can produce this outcome
+				}
+				continue
+			}
+			rhs, from = e, c.Block().Preds[k]
+			n++
+		}
+		if n != 1 {
+			return
+		}
+		quiet := true
+		for _, ins := range c.Block().Instrs {
+			switch ins.(type) {
+			case *ssa.Phi, *ssa.BinOp, *ssa.UnOp, *ssa.If, *ssa.DebugRef:
+			default:
+				quiet = false
+			}
+		}
+		if out := a.out[from]; out != nil && quiet {
+			for k := range out {
+				if !strings.HasPrefix(k, "N|") && !strings.HasPrefix(k, "NE|") {
+					f[k] = true
+				}
+			}
+		}
+		a.condFacts(fn, rhs, taken, f)
 	case *ssa.BinOp:
 		if c.Op != token.EQL && c.Op != token.NEQ {
 			return
+		}
+		// true == x, x != false, … (a tagless switch compares each case with the constant true)
+		for _, pr := range [][2]ssa.Value{{c.X, c.Y}, {c.Y, c.X}} {
+			if kc, ok := pr[0].(*ssa.Const); ok && kc.Value != nil && kc.Value.Kind() == constant.Bool {
+				want := constant.BoolVal(kc.Value)
+				if c.Op == token.NEQ {
+					want = !want
+				}
+				if !taken {
+					want = !want
+				}
+				a.condFacts(fn, pr[1], want, f)
+				return
+			}
 		}
 		var x ssa.Value
 		if isNilConst(c.X) {
@@ -540,7 +623,23 @@ func (a *NilAnalysis) callKills(fn *ssa.Function, site ssa.CallInstruction, f ni
 			continue
 		}
 		for _, ef := range sum.Effects {
+			if loc, ok := a.derefOfActual(site, callee, ef); ok {
+				if loc != "" {
+					a.killLocP(loc, f, keep)
+				}
+				continue
+			}
 			a.killLocP(ef.Loc, f, keep)
+			if strings.HasPrefix(ef.Loc, "deref(") {
+				// a store through a pointer to a basic value: it may be the address of a field handed out somewhere
+				t := strings.TrimSuffix(strings.TrimPrefix(ef.Loc, "deref("), ")")
+				for suffix := range a.escapedFieldAddrs()[t] {
+					sfx := suffix
+					killBy(f, func(k string) bool {
+						return strings.HasSuffix(k, sfx) || strings.Contains(k, sfx+".") || strings.Contains(k, sfx+"[") || strings.Contains(k, sfx+"{")
+					})
+				}
+			}
 		}
 	}
 	if ext {
@@ -776,7 +875,50 @@ func (a *NilAnalysis) literalFieldNonNil(t types.Type, idx int) bool {
 		for _, b := range fn.Blocks {
 			for _, ins := range b.Instrs {
 				switch x := ins.(type) {
+				case *ssa.MakeSlice:
+					if sl, ok := x.Type().Underlying().(*types.Slice); ok && types.Identical(sl.Elem(), t) {
+						return false // zero-valued elements
+					}
 				case *ssa.Alloc:
+					if at, ok := x.Type().(*types.Pointer).Elem().Underlying().(*types.Array); ok && types.Identical(at.Elem(), t) {
+						// a literal table: every row stores a non-nil value into the field
+						rows := map[int64]bool{}
+						for _, ref := range *x.Referrers() {
+							ia, ok := ref.(*ssa.IndexAddr)
+							if !ok {
+								continue
+							}
+							k, isC := ia.Index.(*ssa.Const)
+							if !isC || k.Value == nil {
+								return false
+							}
+							for _, r1 := range *ia.Referrers() {
+								if s1, ok := r1.(*ssa.Store); ok && s1.Addr == ssa.Value(ia) {
+									rows[k.Int64()] = true // a whole value of the type, judged where it is built
+									continue
+								}
+								fa, ok := r1.(*ssa.FieldAddr)
+								if !ok || fa.Field != idx {
+									continue
+								}
+								for _, r2 := range *fa.Referrers() {
+									s2, ok := r2.(*ssa.Store)
+									if !ok || s2.Addr != ssa.Value(fa) {
+										continue
+									}
+									if s2.Block() != b || !a.nonNil(fn, s2.Val, a.at[s2]) {
+										return false
+									}
+									rows[k.Int64()] = true
+								}
+							}
+						}
+						if int64(len(rows)) != at.Len() {
+							return false
+						}
+						allocs++
+						continue
+					}
 					if !types.Identical(x.Type().(*types.Pointer).Elem(), t) {
 						continue
 					}
@@ -829,6 +971,13 @@ func (a *NilAnalysis) literalFieldNonNil(t types.Type, idx int) bool {
 					}
 					if _, own := fa.X.(*ssa.Alloc); own {
 						continue // judged with its Alloc
+					}
+					if ia, ok := fa.X.(*ssa.IndexAddr); ok {
+						if al, own := ia.X.(*ssa.Alloc); own {
+							if _, isArr := al.Type().(*types.Pointer).Elem().Underlying().(*types.Array); isArr {
+								continue // judged with its table
+							}
+						}
 					}
 					if !a.nonNil(fn, x.Val, a.at[x]) {
 						return false
@@ -1034,5 +1183,222 @@ func privateAllocs(fn *ssa.Function) map[string]bool {
 		}
 	}
 	privateAllocsCache.Store(fn, out)
+	return out
+}
+
+// literalOnlyType: the private struct type t appears in the library only as itself, behind a pointer, or as the element of
+// a slice or array (judged row by row in literalFieldNonNil): it is never a struct field, a map value, a channel element or
+// the type of a package-level variable, so no zero value of it can be met.
+func (a *NilAnalysis) literalOnlyType(t types.Type) bool {
+	if nt, ok := t.(*types.Named); ok {
+		if nt.Obj().Exported() || nt.Obj().Pkg() == nil || nt.Obj().Pkg().Path() != LibPath {
+			return false
+		}
+	} else if _, ok := t.(*types.Struct); !ok {
+		return false
+	}
+	if _, ok := t.Underlying().(*types.Struct); !ok {
+		return false
+	}
+	key := "only:" + typeStr(t)
+	if a.litF == nil {
+		a.litF = map[string]bool{}
+	}
+	if r, ok := a.litF[key]; ok {
+		return r
+	}
+	a.litF[key] = false
+	namedSeen := map[*types.TypeName][2]bool{}
+	var mentions func(u types.Type, depth int) (bool, bool) // (mentions t, in an allowed position only)
+	mentions = func(u types.Type, depth int) (bool, bool) {
+		if depth > 40 {
+			return true, false
+		}
+		switch w := u.(type) {
+		case *types.Named:
+			if types.Identical(w, t) {
+				return true, true
+			}
+			if w.Obj().Pkg() == nil || w.Obj().Pkg().Path() != LibPath {
+				return false, true
+			}
+			if r, ok := namedSeen[w.Obj()]; ok {
+				return r[0], r[1] // a recursive type: answered by the outer visit
+			}
+			namedSeen[w.Obj()] = [2]bool{false, true}
+			m, okp := mentions(w.Underlying(), depth+1)
+			namedSeen[w.Obj()] = [2]bool{m, okp}
+			return m, okp
+		case *types.Pointer:
+			return mentions(w.Elem(), depth+1)
+		case *types.Slice:
+			return mentions(w.Elem(), depth+1)
+		case *types.Array:
+			return mentions(w.Elem(), depth+1)
+		case *types.Struct:
+			if types.Identical(w, t) {
+				return true, true
+			}
+			for i := 0; i < w.NumFields(); i++ {
+				if m, _ := mentions(w.Field(i).Type(), depth+1); m {
+					return true, false
+				}
+			}
+		case *types.Map:
+			if m, _ := mentions(w.Elem(), depth+1); m {
+				return true, false
+			}
+			if m, _ := mentions(w.Key(), depth+1); m {
+				return true, false
+			}
+		case *types.Chan:
+			if m, _ := mentions(w.Elem(), depth+1); m {
+				return true, false
+			}
+		case *types.Tuple:
+			for i := 0; i < w.Len(); i++ {
+				if m, okp := mentions(w.At(i).Type(), depth+1); m && !okp {
+					return true, false
+				}
+			}
+		case *types.Signature:
+			return false, true
+		}
+		return false, true
+	}
+	if a.p.LibSSA != nil {
+		for _, m := range a.p.LibSSA.Members {
+			switch g := m.(type) {
+			case *ssa.Global:
+				if mt, _ := mentions(g.Type().(*types.Pointer).Elem(), 0); mt {
+					if _, isSl := g.Type().(*types.Pointer).Elem().Underlying().(*types.Slice); !isSl {
+						return false
+					}
+				}
+			case *ssa.Type:
+				if types.Identical(g.Type(), t) {
+					continue
+				}
+				if mt, okp := mentions(g.Type().Underlying(), 0); mt && !okp {
+					return false
+				}
+				if st, ok := g.Type().Underlying().(*types.Struct); ok {
+					for i := 0; i < st.NumFields(); i++ {
+						if mt, _ := mentions(st.Field(i).Type(), 0); mt {
+							return false
+						}
+					}
+				}
+			}
+		}
+	}
+	for _, fn := range a.p.LibFns {
+		for _, b := range fn.Blocks {
+			for _, ins := range b.Instrs {
+				v, ok := ins.(ssa.Value)
+				if !ok {
+					continue
+				}
+				if mt, okp := mentions(v.Type(), 0); mt && !okp {
+					return false
+				}
+				if al, ok := v.(*ssa.Alloc); ok && al.Heap {
+					// new(T) or an escaping zero value is judged by literalFieldNonNil (no field store -> rejected)
+					_ = al
+				}
+			}
+		}
+	}
+	a.litF[key] = true
+	return true
+}
+
+// derefOfActual: the effect is a store through the pointer parameter itself (*p = …) and the actual at this site is the
+// address of a field (&x.f): the location written is exactly that field.  Returns the location to kill ("" when the
+// actual is the address of a local variable, whose facts are keyed by the variable and killed here).
+func (a *NilAnalysis) derefOfActual(site ssa.CallInstruction, callee *ssa.Function, ef *Effect) (string, bool) {
+	if !strings.HasPrefix(ef.Loc, "deref(") || len(ef.Root) < 2 || ef.Root[0] != 'P' {
+		return "", false
+	}
+	k := 0
+	for _, ch := range ef.Root[1:] {
+		if ch < '0' || ch > '9' {
+			return "", false // reached through the parameter, not the parameter itself
+		}
+		k = k*10 + int(ch-'0')
+	}
+	c := site.Common()
+	var actuals []ssa.Value
+	if c.IsInvoke() {
+		actuals = append([]ssa.Value{c.Value}, c.Args...)
+	} else {
+		actuals = c.Args
+	}
+	if k >= len(actuals) || k >= len(callee.Params) {
+		return "", false
+	}
+	fa, ok := actuals[k].(*ssa.FieldAddr)
+	if !ok {
+		return "", false
+	}
+	pt, ok := fa.X.Type().Underlying().(*types.Pointer)
+	if !ok {
+		return "", false
+	}
+	nt, ok := pt.Elem().(*types.Named)
+	if !ok {
+		return "", false
+	}
+	return nt.Obj().Name() + "." + fieldName(fa.X.Type(), fa.Field), true
+}
+
+// escapedFieldAddrs: per basic type name, the ".field" suffixes of the struct fields of the library whose address is used
+// for anything but loading, storing and selecting a part: a store through a plain pointer of that type may reach them.
+func (a *NilAnalysis) escapedFieldAddrs() map[string]map[string]bool {
+	if a.escF != nil {
+		return a.escF
+	}
+	out := map[string]map[string]bool{}
+	var escapes func(addr ssa.Value, depth int) bool
+	escapes = func(addr ssa.Value, depth int) bool {
+		refs := addr.Referrers()
+		if refs == nil || depth > 4 {
+			return true
+		}
+		for _, r := range *refs {
+			switch y := r.(type) {
+			case *ssa.DebugRef, *ssa.UnOp:
+			case *ssa.Store:
+				if y.Addr != addr {
+					return true
+				}
+			case *ssa.FieldAddr:
+				// a part of the field: judged on its own
+			case *ssa.IndexAddr:
+				if escapes(y, depth+1) {
+					return true
+				}
+			default:
+				return true
+			}
+		}
+		return false
+	}
+	for _, fn := range a.p.LibFns {
+		for _, b := range fn.Blocks {
+			for _, ins := range b.Instrs {
+				fa, ok := ins.(*ssa.FieldAddr)
+				if !ok || !escapes(fa, 0) {
+					continue
+				}
+				t := typeStr(fa.Type().Underlying().(*types.Pointer).Elem())
+				if out[t] == nil {
+					out[t] = map[string]bool{}
+				}
+				out[t]["."+fieldName(fa.X.Type(), fa.Field)] = true
+			}
+		}
+	}
+	a.escF = out
 	return out
 }
